@@ -56,6 +56,16 @@ type CollectorCloser struct {
 	Others []definition.CloserComponent `wire:",required=false"`
 }
 
+// MultiCloser has several roles at once: closer, application runner and (pass-through) component post-processor.
+type MultiCloser struct {
+	Closer
+	runs int32
+}
+
+func (m *MultiCloser) Run() error                                                   { atomic.AddInt32(&m.runs, 1); return nil }
+func (m *MultiCloser) PostProcessBeforeInitialization(c any, n string) (any, error) { return c, nil }
+func (m *MultiCloser) PostProcessAfterInitialization(c any, n string) (any, error)  { return c, nil }
+
 // FailRunner makes the runner phase - and therefore Run - fail: the closers exist by then and a clean-up
 // Close must reach them all the same.
 type FailRunner struct{}
@@ -106,6 +116,13 @@ func TestClose(t *testing.T) {
 				cc.name, cc.gate, cc.fail = "a-collector", c.gate, c.fail // sorts before github.com/go-kid/ioc/app/App
 				cs[i] = &cc.Closer
 				comps = append(comps, cc)
+				continue
+			}
+			if rapid.IntRange(0, 5).Draw(t, "multirole") == 0 {
+				mc := &MultiCloser{}
+				mc.name, mc.gate, mc.fail = c.name, c.gate, c.fail
+				cs[i] = &mc.Closer
+				comps = append(comps, mc)
 				continue
 			}
 			if rapid.IntRange(0, 4).Draw(t, "lazy") == 0 {
